@@ -4,6 +4,8 @@ import (
 	"go/types"
 	"strings"
 
+	"golang.org/x/tools/go/callgraph/cha"
+	"golang.org/x/tools/go/callgraph/vta"
 	"golang.org/x/tools/go/ssa"
 	"golang.org/x/tools/go/ssa/ssautil"
 )
@@ -18,6 +20,7 @@ type modInfo struct {
 	dynSigs []*types.Signature // calls through function values
 	ifaceCalls []ifaceCall
 	reflective bool // may call arbitrary address-taken functions / exported methods
+	owner *ssa.Function
 }
 
 type ifaceCall struct {
@@ -174,7 +177,7 @@ func (p *Prog) storeKeys(addr ssa.Value) []string {
 		}
 		return []string{"G|" + a.Name()}
 	case *ssa.FreeVar:
-		b := p.resolveFreeVar(a)
+		b := p.resolveFreeVarDeep(a)
 		if b != nil {
 			if _, isParam := b.(*ssa.Parameter); !isParam {
 				return p.storeKeys(b)
@@ -332,13 +335,25 @@ func (p *Prog) ComputeModSets() {
 		}
 		return out
 	}
-	// resolve edges
+	// resolve edges: calls through function values use the VTA call graph (sound modulo reflection,
+	// which is handled separately below); signature matching is the fallback for sites VTA does not know.
+	vtaCallees := p.vtaDynamicCallees(all)
+	p.vtaCallees = vtaCallees
 	for _, fn := range all {
 		mi := infos[fn]
-		for _, sig := range mi.dynSigs {
-			for _, t := range taken {
-				if sigMatches(t.Signature, sig) {
+		if tgts, ok := vtaCallees[fn]; ok {
+			for t := range tgts {
+				t = unwrapSynthetic(t)
+				if infos[t] != nil {
 					mi.callees[t] = true
+				}
+			}
+		} else {
+			for _, sig := range mi.dynSigs {
+				for _, t := range taken {
+					if sigMatches(t.Signature, sig) {
+						mi.callees[t] = true
+					}
 				}
 			}
 		}
@@ -413,6 +428,34 @@ func (p *Prog) isLocalFnD(f *ssa.Function, depth int) bool {
 		}
 	}
 	return false
+}
+
+// vtaDynamicCallees: for every local function, the local functions its function-value call sites may reach.
+func (p *Prog) vtaDynamicCallees(all []*ssa.Function) map[*ssa.Function]map[*ssa.Function]bool {
+	out := map[*ssa.Function]map[*ssa.Function]bool{}
+	funcs := ssautil.AllFunctions(p.SSAProg)
+	cg := vta.CallGraph(funcs, cha.CallGraph(p.SSAProg))
+	for _, fn := range all {
+		n := cg.Nodes[fn]
+		set := map[*ssa.Function]bool{}
+		out[fn] = set
+		if n == nil {
+			continue
+		}
+		for _, e := range n.Out {
+			if e.Site == nil {
+				continue
+			}
+			c := e.Site.Common()
+			if c.IsInvoke() || c.StaticCallee() != nil {
+				continue
+			}
+			if e.Callee != nil && e.Callee.Func != nil && p.isLocalFn(e.Callee.Func) {
+				set[e.Callee.Func] = true
+			}
+		}
+	}
+	return out
 }
 
 func sigMatches(a, b *types.Signature) bool {
@@ -576,4 +619,25 @@ func errorIface() *types.Interface {
 		cachedError = types.Universe.Lookup("error").Type().Underlying().(*types.Interface)
 	}
 	return cachedError
+}
+
+// resolveFreeVarDeep follows free variables through nested closures to the captured Alloc.
+func (p *Prog) resolveFreeVarDeep(fv *ssa.FreeVar) ssa.Value {
+	for i := 0; i < 8; i++ {
+		b := p.resolveFreeVar(fv)
+		if b == nil {
+			return nil
+		}
+		if f2, ok := b.(*ssa.FreeVar); ok {
+			fv = f2
+			continue
+		}
+		return b
+	}
+	return nil
+}
+
+// cvKeyName: a deterministic name for any Alloc (used for ordering only).
+func (p *Prog) cvKeyName(a *ssa.Alloc) string {
+	return a.Comment + "@" + a.Name()
 }
